@@ -29,9 +29,7 @@ def analyse(pid: str, root: str, tier: str = "quick"):
     counts = {}
     for o in ctx.obligations:
         counts[o.rule] = counts.get(o.rule, 0) + 1
-    for rule, fl in floors.items():
-        if counts.get(rule, 0) < fl:
-            raise AnalysisError(f"{rule}: only {counts.get(rule, 0)} instance(s) analysed, floor is {fl} (vacuity guard)")
+    ctx.floor_failures = [f"{rule}: only {counts.get(rule, 0)} instance(s) analysed, floor is {fl} (vacuity guard)" for rule, fl in floors.items() if counts.get(rule, 0) < fl]
     return ctx, ctx.obligations
 
 
@@ -73,6 +71,12 @@ def run_property(pid: str, tier: str) -> int:
         return 2
     apply_known(pid, obs)
     viol = [o for o in obs if o.verdict == VIOLATION]
+    if not viol and ctx.floor_failures:
+        # a rule matched fewer instances than confirmed by hand and nothing was refuted: the analysis lost its anchors
+        for f in ctx.floor_failures:
+            print(f"ANALYSIS-ERROR property={pid} {f}")
+        write_evidence(pid, tier, level, ctx, obs, time.time() - t0, {"analysis_error": "; ".join(ctx.floor_failures)}, floors, assumptions, explanation, status="analysis-error")
+        return 2
     known = [o for o in obs if o.verdict == KNOWN]
     if level == "proof":
         proof_rules = getattr(mod, "PROOF_RULES", [])
